@@ -80,7 +80,7 @@ func c04Run(c c04Case) (viol bool, desc string, res eng.Result, expectAccept boo
 			}
 			c04Compiled[key] = sys
 		}
-		serr := sys.SolveCircuit(asg)
+		serr := sys.SolveCircuit(asg, cs.TolerantHints()...)
 		res.Outcome = eng.Reject
 		if serr == nil {
 			res.Outcome = eng.Accept
